@@ -67,6 +67,29 @@ def isDead (cfg : Cfg) (now : Nat) (r : Res) : Bool := expired cfg now r || deci
 def destroy (s : St) (id : Nat) : St :=
   { s with live := s.live.filter (·.id != id), destroyed := id :: s.destroyed }
 
+/-! ### puddle's resource operations, as used by chpool (github.com/jackc/puddle/v2, read from its source) -/
+
+/-- `res.Value()`: the resource record; panics unless the resource is live and acquired -/
+def puddleValue (s : St) (id : Nat) : Option Res :=
+  match s.live.find? (·.id == id) with
+  | none => none
+  | some r => if r.held then some r else none
+
+/-- `res.Destroy()` on an acquired resource -/
+def puddleDestroy (s : St) (id : Nat) : St := destroy s id
+
+/-- `res.Release()` on an acquired resource: back to the idle set, or destroyed when the pool is closed -/
+def puddleRelease (s : St) (id : Nat) : St :=
+  if s.closed then destroy s id else { s with live := upd s.live id (setIdle s.now) }
+
+/-- `res.ReleaseUnused()`: back to the idle set without touching the last-used time -/
+def puddleReleaseUnused (s : St) (id : Nat) : St :=
+  if s.closed then destroy s id else { s with live := upd s.live id (fun r => { r with held := false }) }
+
+/-- `pool.AcquireAllIdle()`: every idle resource becomes acquired and is handed out -/
+def puddleAcquireAllIdle (s : St) : St × List Res :=
+  if s.closed then (s, []) else ({ s with live := s.live.map fun r => if r.held then r else setHeld r }, idle s)
+
 def step (cfg : Cfg) (s : St) : Op → St
   | .acquire h pick =>
     if s.closed then s
